@@ -140,6 +140,10 @@ def cases_for(kind, tier, shard, of):
         out = list(dict.fromkeys((l, "notxbody" if (l, st) == ("shape", "merged") else st, s, cl) for l, st, s, cl in out))
         # a body that already READS like the string being assigned but is built differently (the string in one run)
         out += [(level, "sameread", s, feature_class(s)) for s in exhaustive_strings() for level in LEVELS[:4]]
+        # a paragraph holding an equation the way PowerPoint writes one (not at run level: a run assignment leaves the rest
+        # of its paragraph alone, and python-pptx's own reading of the rest is not what C04 is about)
+        out += [(level, "eqn", s, feature_class(s)) for i, s in enumerate(exhaustive_strings()) for li, level in enumerate(LEVELS)
+                if level != "run" and (tier == "thorough" or (i + li) % 3 == 0)]
         return [c for j, c in enumerate(out) if j % of == shard]
     r = env.rng("C04", "random", tier, shard)
     total = 1500 if tier == "quick" else 40000
@@ -151,6 +155,8 @@ def cases_for(kind, tier, shard, of):
             out += [(level, "notxbody" if (level, st) == ("shape", "merged") else st, s, cls) for st in sts]
         if i % 2 == 0:
             out.append((LEVELS[(i // 2) % 4], "sameread", s, cls))
+        if i % 5 == 0:
+            out.append(([l for l in LEVELS if l != "run"][(i // 5) % (len(LEVELS) - 1)], "eqn", s, cls))
     return out
 
 
@@ -177,6 +183,10 @@ def facts(body):
                 toks.append((name, (t.text or "") if t is not None else ""))
             elif name == "br":
                 toks.append(("br", None))
+            elif name not in ("pPr", "endParaRPr"):
+                # content in a form python-pptx has no class for (an equation in mc:AlternateContent, as PowerPoint 2010+
+                # writes one): the text a reader of the part shows for it
+                toks.append(("x", "".join(t.text or "" for t in k.iter("{%s}t" % A))))
         end = [i for i, k in enumerate(kids) if k.tag == "{%s}endParaRPr" % A]
         out.append({"pPr": c14n(p.find("{%s}pPr" % A)), "toks": toks, "c14n": c14n(p),
                     "rPr": [c14n(k.find("{%s}rPr" % A)) for k in kids if k.tag == "{%s}r" % A],
@@ -229,7 +239,15 @@ STATE_XML = {
         '<a:endParaRPr lang="en-US"/></a:p>'
     ],
 }
-TARGET = {"three": (1, 1), "brfirst": (0, 0), "fld": (0, 0)}  # (paragraph index, run index) assigned at para/run level
+STATE_XML["eqn"] = [
+    '<a:p %s><a:pPr algn="ctr"/><a:r><a:rPr lang="en-US"/><a:t>area </a:t></a:r>'
+    '<mc:AlternateContent xmlns:mc="http://schemas.openxmlformats.org/markup-compatibility/2006" '
+    'xmlns:a14="http://schemas.microsoft.com/office/drawing/2010/main" xmlns:m="http://schemas.openxmlformats.org/officeDocument/2006/math">'
+    '<mc:Choice Requires="a14"><a14:m><m:oMath><m:r><m:t>pi r2</m:t></m:r></m:oMath></a14:m></mc:Choice>'
+    '<mc:Fallback><a:r><a:rPr lang="en-US"/><a:t>[pi r2]</a:t></a:r></mc:Fallback></mc:AlternateContent>'
+    '<a:endParaRPr lang="en-US"/></a:p>'
+]
+TARGET = {"three": (1, 1), "brfirst": (0, 0), "fld": (0, 0), "eqn": (0, 0)}  # (paragraph index, run index) assigned at para/run level
 PH_XML = (
     '<p:sp %s><p:nvSpPr><p:cNvPr id="%d" name="Title %d"/><p:cNvSpPr><a:spLocks noGrp="1"/></p:cNvSpPr>'
     '<p:nvPr><p:ph type="title"/></p:nvPr></p:nvSpPr><p:spPr/></p:sp>'
